@@ -1,6 +1,6 @@
 SPECIFICATION Spec
 CONSTANTS N = 3
- MaxCalls = 4
+ MaxCalls = 3
  WithList = TRUE
  ExactOccursCheck = TRUE
 INVARIANT TypeOK
